@@ -23,7 +23,7 @@ from fiddle._src.experimental import serialization
 from harness import common, l2
 from harness.common import Failure, Result, Stream, g_list, g_nat, g_bool
 
-COQ_TARGETS = ["theories/C19Check.vo", "theories/Anchors.vo"]
+COQ_TARGETS = ["theories/C19Check.vo"]
 TRUSTED_BASE = [
     "atomicity of single bytecode operations under the GIL; threading.local; itertools.count.__next__; "
     "functools.lru_cache; weakref.WeakKeyDictionary (assumptions of the model: its actions are atomic)"]
